@@ -53,6 +53,8 @@ pub enum AddrFamily {
     V6,
     UnixPath,
     UnixAbstract,
+    /// AF_INET6 socket bound to an IPv4-mapped address (::ffff:127.0.0.1).
+    V6Mapped,
 }
 
 #[derive(Clone, Debug, Serialize, Deserialize)]
@@ -188,7 +190,7 @@ fn file_op() -> impl Strategy<Value = FileOp> {
 }
 
 fn family() -> impl Strategy<Value = AddrFamily> {
-    prop_oneof![Just(AddrFamily::V4), Just(AddrFamily::V6), Just(AddrFamily::UnixPath), Just(AddrFamily::UnixAbstract)]
+    prop_oneof![3 => Just(AddrFamily::V4), 3 => Just(AddrFamily::V6), 3 => Just(AddrFamily::UnixPath), 3 => Just(AddrFamily::UnixAbstract), 2 => Just(AddrFamily::V6Mapped)]
 }
 
 impl Property for C13 {
@@ -748,6 +750,7 @@ fn make_addr(family: AddrFamily, scratch: &Scratch, tag: &str, name_len: u8) -> 
     match family {
         AddrFamily::V4 => AnyAddr::Ip("127.0.0.1:0".parse().unwrap()),
         AddrFamily::V6 => AnyAddr::Ip("[::1]:0".parse().unwrap()),
+        AddrFamily::V6Mapped => AnyAddr::Ip("[::ffff:127.0.0.1]:0".parse().unwrap()),
         AddrFamily::UnixPath => {
             let p = scratch.dir.join(format!("{tag}{n}.sock"));
             AnyAddr::Unix(std::os::unix::net::SocketAddr::from_pathname(&p).unwrap(), Some(p))
@@ -859,7 +862,7 @@ unsafe fn socket_borrow(fd: RawFd) -> BorrowedSock {
 fn domain_of(f: AddrFamily) -> Domain {
     match f {
         AddrFamily::V4 => Domain::IPV4,
-        AddrFamily::V6 => Domain::IPV6,
+        AddrFamily::V6 | AddrFamily::V6Mapped => Domain::IPV6,
         _ => Domain::UNIX,
     }
 }
@@ -936,8 +939,12 @@ fn std_stream_pair(family: AddrFamily, scratch: &Scratch) -> Result<(OwnedFd, Ow
     use std::os::fd::IntoRawFd;
     let own = |fd: RawFd| unsafe { OwnedFd::from_raw_fd(fd) };
     match family {
-        AddrFamily::V4 | AddrFamily::V6 => {
-            let l = std::net::TcpListener::bind(if family == AddrFamily::V4 { "127.0.0.1:0" } else { "[::1]:0" }).map_err(|e| format!("infra:{e}"))?;
+        AddrFamily::V4 | AddrFamily::V6 | AddrFamily::V6Mapped => {
+            let l = std::net::TcpListener::bind(match family {
+                AddrFamily::V4 => "127.0.0.1:0",
+                AddrFamily::V6 => "[::1]:0",
+                _ => "[::ffff:127.0.0.1]:0",
+            }).map_err(|e| format!("infra:{e}"))?;
             let c = std::net::TcpStream::connect(l.local_addr().unwrap()).map_err(|e| format!("infra:{e}"))?;
             let (s, _) = l.accept().map_err(|e| format!("infra:{e}"))?;
             Ok((own(c.into_raw_fd()), own(s.into_raw_fd())))
@@ -1181,7 +1188,7 @@ fn run_dgram(real: &mut Real, case: &Case, classes: &mut Vec<&'static str>) -> R
 fn dom_raw(f: AddrFamily) -> i32 {
     match f {
         AddrFamily::V4 => libc::AF_INET,
-        AddrFamily::V6 => libc::AF_INET6,
+        AddrFamily::V6 | AddrFamily::V6Mapped => libc::AF_INET6,
         _ => libc::AF_UNIX,
     }
 }
